@@ -164,7 +164,19 @@ def check_restarts(cur):
         run_len = n_before + 1
         if run_len > max_restarts + 1:
             cur.v('retried_too_often', time=t_first, attempts=run_len, max_restarts=max_restarts)
-        budget_exhausted = n_before >= max_restarts
+        # two readings of "the retry budget was exhausted": (strict) this block's first step itself has been attempted and
+        # rejected max_restarts times in a row; (the library's) max_restarts blocks in a row contained a restart - the
+        # counters are kept per block position, and with changing step sizes the start times move, so the chain of
+        # restarted blocks can be longer than the number of attempts of any one start time.  The strict reading implies
+        # the library's; a suppressed restart is accepted under either, a restart is an excess only under the strict one
+        n_chain = 0
+        for bj in range(bi - 1, -1, -1):
+            if all('post' in a for a in blks[bj]) and first_restart(blks[bj]) is not None:
+                n_chain += 1
+            else:
+                break
+        budget_exhausted = n_before >= max_restarts or n_chain >= max_restarts
+        budget_exhausted_strict = n_before >= max_restarts
         if not complete:
             # the block in which ConvergenceError was raised
             if not budget_exhausted:
@@ -200,7 +212,7 @@ def check_restarts(cur):
         elif requested and not budget_exhausted and r is not None:
             if r not in ({0} if from_first else set(requested)):
                 cur.v('restart_request_lost', block=blk[0]['block'], requested=requested, first_restarted=r)
-        if requested and budget_exhausted and r is not None:
+        if requested and budget_exhausted_strict and r is not None:
             cur.v('restart_after_budget_exhausted', block=blk[0]['block'], attempts=run_len)
         if not requested and r is not None:
             cur.v('restart_without_request', block=blk[0]['block'], first_restarted=r)
